@@ -20,7 +20,7 @@ DRIVER = os.path.join(VERIF, "lean", ".lake", "build", "bin", "driver")
 HEXEC = os.path.join(VERIF, ".build", "target", "release", "hexec")
 NPROC = int(os.environ.get("VERIF_JOBS", "16"))
 
-FIELDS = ["D", "Dseq", "F", "R", "P", "T", "Ts", "E", "roots", "wroots", "vals", "raws", "heap"]
+FIELDS = ["D", "Dseq", "F", "R", "P", "T", "Ts", "E", "roots", "wroots", "vals", "raws", "C", "W", "heap"]
 
 
 def parse_obs(line):
